@@ -75,7 +75,9 @@ def enumerate_part1(max_len, rng=None, cap=None):
 # reads in every expression position (all operands are always evaluated: values are truthy, only `and` is used)
 READ_FORMS = ['print(%(v)s and %(w)s)', '%(u)s = %(v)s and %(w)s', '%(u)s = %(v)s + 1', 'print(%(v)s < %(w)s)', 'print(not %(v)s)', 'print(-%(v)s)',
               'print(len([%(v)s]))', "print(f'{%(v)s}')", 'print(%(v)s * 2 + %(w)s)', '%(u)s = (%(v)s and 1) + 1',
-              'print(1 and %(v)s and %(w)s)', '%(u)s = max(%(v)s, 1)', '%(v)s']     # every variable value stays a non-zero int
+              'print(1 and %(v)s and %(w)s)', '%(u)s = max(%(v)s, 1)', '%(v)s',
+              # calls written as statements of their own, on something that has no name
+              '[%(v)s, 1].sort()', "'-'.join([str(%(v)s)])", 'str(%(v)s).upper()', '(%(v)s, %(w)s).count(1)']     # every variable value stays a non-zero int
 
 
 # assignments in their other forms (every value stays a non-zero int)
